@@ -173,6 +173,9 @@ def dispatch (fn : String) (args : List String) (impl : String) : Option Verdict
   match fn, args with
   | "serve_dir", [tree, dir, route, uri, tag] => some (run .serveDir tree dir route uri tag impl)
   | "serve_as_file_path", [tree, dir, _, uri, tag] => some (run .serveAsFilePath tree dir "" uri tag impl)
+  -- the async twins (humphrey built with `--features tokio`) must behave exactly like the threaded handlers
+  | "serve_dir_tokio", [tree, dir, route, uri, tag] => some (run .serveDir tree dir route uri tag impl)
+  | "serve_as_file_path_tokio", [tree, dir, _, uri, tag] => some (run .serveAsFilePath tree dir "" uri tag impl)
   | "directory_handler", [tree, dir, pat, uri, tag] => some (run .directoryHandler tree dir pat uri tag impl)
   | "file_handler", [tree, file, _, _, _] =>
     match parseTree tree, unhex file with
